@@ -174,7 +174,7 @@ def gen_case(seed, tier):
             step['stream_fail'] = rng.choice((None, None, None, 0, 3))
             # where the bytes come from: the simulator's stream (short reads), a real file opened 'rb' with a header already
             # consumed, or a gzip reader over a real file - objects with a fileno() of their own
-            step['stream_src'] = rng.choice(('sim', 'sim', 'file', 'gzip'))
+            step['stream_src'] = rng.choice(('sim', 'sim', 'file', 'gzip', 'file0'))      # file0: a plain file read from its start
             if step['stream_src'] != 'sim':
                 step['stream_fail'] = None
         steps.append(step)
@@ -275,13 +275,17 @@ def run_case(case):
                         cache[key] = value
                     elif how == 'push':
                         key = cache.push(value, prefix='q%d' % i)
-                    elif how == 'stream' and step.get('stream_src') in ('file', 'gzip'):
+                    elif how == 'stream' and step.get('stream_src') in ('file', 'gzip', 'file0'):
                         import gzip
                         src_path = world.path('source-%d.bin' % i)
                         if step['stream_src'] == 'gzip':
                             with gzip.open(src_path, 'wb') as fh:
                                 fh.write(value)
                             stream = gzip.open(src_path, 'rb')
+                        elif step['stream_src'] == 'file0':
+                            with open(src_path, 'wb') as fh:
+                                fh.write(value)
+                            stream = open(src_path, 'rb')
                         else:
                             with open(src_path, 'wb') as fh:
                                 fh.write(b'HEADER-16-BYTES!' + value)
@@ -291,6 +295,12 @@ def run_case(case):
                             cache.set(key, stream, read=True)
                         finally:
                             stream.close()
+                        # the source is the caller's file: what becomes of it afterwards is no business of the stored value
+                        with open(src_path, 'r+b') as fh:
+                            fh.write(b'REWRITTEN-BY-THE-CALLER')
+                        if step['stream_src'] == 'file0':
+                            with open(src_path, 'ab') as fh:
+                                fh.write(b'...and appended to')
                         probes['stream_values'] = probes.get('stream_values', 0) + 1
                         probes['real_file_streams'] = probes.get('real_file_streams', 0) + 1
                     elif how == 'stream':
